@@ -105,6 +105,92 @@ Proof.
     | match goal with |- okf (match ?x with _ => _ end) => destruct x end ].
 Qed.
 
+
+Lemma okf_evpn_decode c : okf (evpn_decode c).
+Proof. unfold evpn_decode, evpn_route, rm. okf_tac. Qed.
+Lemma okf_rtc_decode c : okf (rtc_decode c).
+Proof. unfold rtc_decode, rm. okf_tac. Qed.
+Lemma okf_srp_decode c : okf (srp_decode c).
+Proof. unfold srp_decode, rm. okf_tac. Qed.
+Lemma okf_ls_node_fold : forall tl nd, okf (ls_node_fold tl nd).
+Proof.
+  induction tl as [|[t v] r IH]; intro nd; cbn [ls_node_fold]; [exact I|].
+  unfold ls_first.
+  repeat first [ apply IH | exact I
+               | match goal with |- okf (bind _ _) => apply okf_bind; [|intros] end
+               | match goal with |- okf (if ?b then _ else _) => destruct b end ].
+Qed.
+Lemma okf_ls_link_tlvs : forall tl, okf (ls_link_tlvs tl).
+Proof.
+  induction tl as [|[t v] r IH]; cbn [ls_link_tlvs]; [exact I|]. unfold ls_first.
+  repeat first [ apply IH | exact I
+               | match goal with |- okf (bind _ _) => apply okf_bind; [|intros] end
+               | match goal with |- okf (if ?b then _ else _) => destruct b end ].
+Qed.
+Lemma okf_ls_prefix_tlvs : forall tl, okf (ls_prefix_tlvs tl).
+Proof.
+  induction tl as [|[t v] r IH]; cbn [ls_prefix_tlvs]; [exact I|].
+  repeat first [ apply IH | exact I
+               | match goal with |- okf (bind _ _) => apply okf_bind; [|intros] end
+               | match goal with |- okf (if ?b then _ else _) => destruct b end
+               | match goal with |- okf (match ?x with _ => _ end) => destruct x end ].
+Qed.
+Lemma okf_ls_srv6_tlvs : forall tl a b, okf (ls_srv6_tlvs tl a b).
+Proof.
+  induction tl as [|[t v] r IH]; intros a b; cbn [ls_srv6_tlvs]; [exact I|]. unfold ls_first.
+  repeat first [ apply IH | exact I
+               | match goal with |- okf (bind _ _) => apply okf_bind; [|intros] end
+               | match goal with |- okf (if ?b then _ else _) => destruct b end ].
+Qed.
+Lemma okf_ls_node_and_rest d : okf (ls_node_and_rest d).
+Proof.
+  unfold ls_node_and_rest, ls_node. destruct (ls_read_tlv d) as [[[t v] r]|]; [|reflexivity].
+  destruct (negb _); [reflexivity|]. apply okf_bind; [apply okf_ls_node_fold|intros; exact I].
+Qed.
+Lemma okf_ls_decode c : okf (ls_decode c).
+Proof.
+  unfold ls_decode, rm, ls_first.
+  repeat first
+    [ exact I | reflexivity | apply okf_req; reflexivity | apply okf_ls_node_and_rest
+    | apply okf_ls_link_tlvs | apply okf_ls_prefix_tlvs | apply okf_ls_srv6_tlvs
+    | match goal with |- okf (bind _ _) => apply okf_bind; [|intros] end
+    | match goal with |- okf (let '(_, _) := ?x in _) => destruct x end
+    | match goal with |- okf (if ?b then _ else _) => destruct b end
+    | match goal with |- okf (match ?x with _ => _ end) => destruct x end ].
+Qed.
+Lemma okf_mup_decode fam c n : okf (mup_decode fam c n).
+Proof. unfold mup_decode, rm. okf_tac. Qed.
+Lemma okf_fs_op c : okf (fs_op c).
+Proof. unfold fs_op, rm. okf_tac. Qed.
+Lemma okf_fs_ops : forall fuel c acc, okf (fs_ops fuel c acc).
+Proof.
+  induction fuel as [|f IH]; intros c acc; cbn [fs_ops]; [exact I|].
+  apply okf_bind; [apply okf_fs_op|]. intros [[b v] c1]. destruct (N.testbit b 7); [exact I|apply IH].
+Qed.
+Lemma okf_fs_component v6 c : okf (fs_component v6 c).
+Proof.
+  unfold fs_component, rm.
+  repeat first
+    [ exact I | reflexivity | apply okf_req; reflexivity | apply okf_fs_ops
+    | match goal with |- okf (bind _ _) => apply okf_bind; [|intros] end
+    | match goal with |- okf (let '(_, _) := ?x in _) => destruct x end
+    | match goal with |- okf (if ?b then _ else _) => destruct b end ].
+Qed.
+Lemma okf_fs_components : forall fuel v6 c acc, okf (fs_components fuel v6 c acc).
+Proof.
+  induction fuel as [|f IH]; intros v6 c acc; destruct c as [|b c]; cbn [fs_components]; try exact I.
+  apply okf_bind; [apply okf_fs_component|]. intros [x c']. apply IH.
+Qed.
+Lemma okf_fs_decode vpn v6 c n : okf (fs_decode vpn v6 c n).
+Proof.
+  unfold fs_decode, rm.
+  repeat first
+    [ exact I | reflexivity | apply okf_req; reflexivity | apply okf_fs_components
+    | match goal with |- okf (bind _ _) => apply okf_bind; [|intros] end
+    | match goal with |- okf (let '(_, _) := ?x in _) => destruct x end
+    | match goal with |- okf (if ?b then _ else _) => destruct b end ].
+Qed.
+
 Section ErrFacts.
   Variable other_nlri : N -> bool -> list N -> option (list N).
 
@@ -113,6 +199,7 @@ Section ErrFacts.
     unfold nlri_decode.
     repeat first
       [ exact I | reflexivity | apply okf_prefix_decode | apply okf_vpn_decode | apply okf_labeled_decode
+      | apply okf_evpn_decode | apply okf_rtc_decode | apply okf_srp_decode | apply okf_fs_decode | apply okf_mup_decode | apply okf_ls_decode
       | match goal with |- okf (bind _ _) => apply okf_bind; [|intros] end
       | match goal with |- okf (let '(_, _) := ?x in _) => destruct x end
       | match goal with |- okf (if ?b then _ else _) => destruct b end
